@@ -251,12 +251,12 @@ func (l Layout) node(sb *strings.Builder, n Node, a Ann, notes []string, indent,
 
 // Types every SchemaText project may refer to.
 var SupportTypes = map[string]string{
-	"@t":     `1`,
-	"@a":     `2`,
-	"@b":     `"s"`,
-	"@k":     `"key"`,
-	"@base":  "{\n  \"bk\": 1\n}",
-	"@base2": "{\n  \"bk2\": 2\n}",
+	"@t":      `1`,
+	"@a":      `2`,
+	"@b":      `"s"`,
+	"@k":      `"key"`,
+	"@base":   "{\n  \"bk\": 1\n}",
+	"@base2":  "{\n  \"bk2\": 2\n}",
 	"@marker": "{}", // an object type without properties: may be listed twice in an allOf
 }
 
